@@ -11,6 +11,8 @@ var corpusC15 = []string{
 	`a == 1 and (b == 2 or not c in d)`, `a == "é"`, ` a==1 `, "a\t==\n1", `a == 1 or b == 2 or c == 3`, `a == 1 and b == 2 and c == 3`, `a == 1 or b == 2 and c == 3`,
 	`a == 1 or any b as x { x == 1 }`, `(any b as x { x == 1 }) and a == 1`, `not == 1`, `in in in`, `any == 1`, `all.x is empty`, `a == "/a~1b/~0"`, `"/a~1b/~0c" == 1`, `a == "/é/١"`, `"/é" == 1`,
 	`((a == 1))`, `(a == 1) and (b == 2)`, `a == 1 and not (b == 2)`, `a == -0`, `a == 0.50`, `a == foo["bar"]`, `a[ "b" ] == 1`, `a == x/y`,
+	`"/a/~01" == 1`, `"/~10" == 1`, `a == "/~01"`, `a == 1 or a == 1`, `a == 1 and a == 1`, `a matches "x" or a matches "y"`, `m["b.c"] == 1 and m.b.c == 1`, `a == 1 or (a == 1 and b == 2)`,
+	`foo["bar"] in baz`, `foo.bar in baz`, `"/x/y" in foo`, `(((((a == 1)))))`, `not ((((not (a in b)))))`,
 	// rejected
 	`(a == 1`, `a == 1x`, `a[1] == 2`, `a["b" == 1`, `a == "x`, "a == `x", `1 in `, `x in 5`, `a == "\q"`, `a ==`, `== 1`, `a = 1`, `any a as _ { x == 1 }`, `a == 01`, `a == 1.`, "a == \"\xff\"", `a is`, `not`, `a == 1 or`, `{`,
 	`any a as x { x == 1} `, `any a as x { x == 1}`, `a == 1and b == 2`, `(a==1)and(b==2)`, `not(a==1)`, `a == 1e5`, `anyxs as x { x == 1 }`, `any a as x { any x as y { y == 1 } } or a == 1`, `a == 1 and any b as x { x == 1 }`, `not any b as x { x == 1 }`,
